@@ -36,7 +36,7 @@ class Store:
                     out[-1] = ('lit', out[-1][1] + p[1])
                     continue
             out.append(p)
-        key = tuple((p[0], p[1]) if p[0] == 'lit' else ((p[0], p[1].get_id()) if p[0] == 'sel' else (p[0], p[1], p[2].get_id() if z3.is_expr(p[2]) else p[2])) for p in out)
+        key = tuple((p[0], p[1]) if p[0] == 'lit' else ((p[0], p[1].get_id()) if p[0] == 'sel' else ((p[0], p[1].get_id() if z3.is_expr(p[1]) else p[1], p[2].get_id()) if p[0] == 'pre' else (p[0], p[1], p[2].get_id() if z3.is_expr(p[2]) else p[2]))) for p in out)
         if key not in s.ids:
             s.ids[key] = len(s.vals)
             s.vals.append(tuple(out))
@@ -167,18 +167,41 @@ def install(mod, ex, S):
         put(e, st, a[0], lit(e, st, a[1], a[2]))
         return st, None
 
-    table = {'pLEc': push_back, '9push_backEc': push_back, '6appendEmc': append_nc, 'C2EmcRKS3_': ctor_nc, 'C1EmcRKS3_': ctor_nc, 'C2EPKcmRKS3_': ctor_cstr_n, 'C1EPKcmRKS3_': ctor_cstr_n,
+    def find_last_not_of_c(e, st, a):
+        # index of the last character different from c (searching the whole string), npos if there is none: computed on the
+        # exact byte encoding of the string
+        if not (is_c(a[1]) and (not is_c(a[2]) or a[2] >= (1 << 63) or True)):
+            raise Abort('find_last_not_of with a symbolic character')
+        term = get(e, st, a[0])
+        L = max_len(S, term)
+        n, w = to_bytes(S, term, L)
+        res = z3.BitVecVal((1 << 64) - 1, 64)
+        for k in range(L):
+            byte = z3.Extract(8 * (L - k) - 1, 8 * (L - k - 1), w)
+            res = z3.If(z3.And(z3.ULT(z3.BitVecVal(k, 8), n), byte != (a[1] & 0xFF)), z3.BitVecVal(k, 64), res)
+        return st, res
+
+    def erase(e, st, a):
+        # erase(pos, npos): keep the first pos characters
+        if not (is_c(a[2]) and a[2] >= (1 << 63)):
+            raise Abort('string::erase of a bounded range')
+        term = get(e, st, a[0])
+        pos = bv(a[1], 64)
+        put(e, st, a[0], S.intern((('pre', term if not is_c(term) else z3.BitVecVal(term, 64), pos),)))
+        return st, a[0]
+
+    table = {'16find_last_not_ofEcm': None, '5eraseEmm': erase, 'pLEc': push_back, '9push_backEc': push_back, '6appendEmc': append_nc, 'C2EmcRKS3_': ctor_nc, 'C1EmcRKS3_': ctor_nc, 'C2EPKcmRKS3_': ctor_cstr_n, 'C1EPKcmRKS3_': ctor_cstr_n,
              '5clearEv': lambda e, st, a: (put(e, st, a[0], 0), (st, None))[1], 'C2Ev': ctor_default, 'C1Ev': ctor_default, 'C2ERKS4_': ctor_copy, 'C1ERKS4_': ctor_copy, 'C2EOS4_': ctor_copy, 'C1EOS4_': ctor_copy,
              'C2IS3_EEPKcRKS3_': ctor_cstr, 'C1IS3_EEPKcRKS3_': ctor_cstr, 'C2EPKcRKS3_': ctor_cstr, 'C1EPKcRKS3_': ctor_cstr,
              'C2ERKS3_': ctor_default, 'C1ERKS3_': ctor_default, 'aSEPKc': assign_cstr, 'pLEPKc': append_cstr, 'pLERKS4_': append_str, '6appendEPKc': append_cstr, '6appendERKS4_': append_str, '6appendEPKcm': append_cstr_n,
              '6insertEmPKc': insert_cstr, '6insertEmRKS4_': insert_str, 'D2Ev': nop, 'D1Ev': nop, '10_M_disposeEv': nop, '7reserveEm': nop,
              'aSEOS4_': lambda e, st, a: (ctor_copy(e, st, a)[0], a[0]), 'aSERKS4_': lambda e, st, a: (ctor_copy(e, st, a)[0], a[0])}
-    ktable = {'4sizeEv': size, '6lengthEv': size, '8capacityEv': ret_big, '5emptyEv': lambda e, st, a: (st, bv(length_term(S, get(e, st, a[0])), 64) == 0)}
+    ktable = {'16find_last_not_ofEcm': find_last_not_of_c, '4sizeEv': size, '6lengthEv': size, '8capacityEv': ret_big, '5emptyEv': lambda e, st, a: (st, bv(length_term(S, get(e, st, a[0])), 64) == 0)}
     names = set(mod.funcs) | set(mod.decls)
     for n in names:
         if n.startswith('@' + STRP):
             suf = n[len('@' + STRP):]
-            if suf in table:
+            if suf in table and table[suf] is not None:
                 I[n] = table[suf]
         elif n.startswith('@' + STRK):
             suf = n[len('@' + STRK):]
@@ -285,7 +308,7 @@ def tokens_of(E, i, o, e):
 
 def describe(S, term, depth=0):
     def one(i):
-        return ''.join(p[1].decode('latin1') if p[0] == 'lit' else ('<hex%d>' % p[1] if p[0] == 'hex' else '{' + describe(S, p[1], depth + 1) + '}') for p in S.vals[i])
+        return ''.join(p[1].decode('latin1') if p[0] == 'lit' else ('<hex%d>' % p[1] if p[0] == 'hex' else ('{' + describe(S, p[1], depth + 1) + '}' + ('[:n]' if p[0] == 'pre' else ''))) for p in S.vals[i])
     a = alts(term)
     return ' | '.join(one(i) for g, i in a[:4]) + (' | ...' if len(a) > 4 else '')
 
@@ -294,7 +317,7 @@ def max_len(S, term, memo=None):
     memo = {} if memo is None else memo
     def of_id(i):
         if i not in memo:
-            memo[i] = sum(len(p[1]) if p[0] == 'lit' else (p[1] if p[0] == 'hex' else max_len(S, p[1], memo)) for p in S.vals[i])
+            memo[i] = sum(len(p[1]) if p[0] == 'lit' else (p[1] if p[0] == 'hex' else max_len(S, p[1], memo)) for p in S.vals[i])      # ('sel', t) and ('pre', t, pos): bounded by t
         return memo[i]
     return max([of_id(i) for g, i in alts(term)] + [1])
 
@@ -303,6 +326,10 @@ def length_term(S, term):
     def of_id(i):
         n = 0
         for p in S.vals[i]:
+            if p[0] == 'pre':
+                full = bv(length_term(S, p[1]), 64)
+                n = n + z3.If(z3.ULT(p[2], full), p[2], full)
+                continue
             n = n + (len(p[1]) if p[0] == 'lit' else (p[1] if p[0] == 'hex' else bv(length_term(S, p[1]), 64)))
         return n
     res = None
@@ -319,7 +346,7 @@ def has_error(S, term, sub=None):
         for p in S.vals[i]:
             if p[0] == 'lit' and b'[ERROR]' in p[1]:
                 return z3.BoolVal(True)
-            if p[0] == 'sel':
+            if p[0] in ('sel', 'pre'):
                 c.append(has_error(S, p[1], sub))
         return z3.Or(*c) if c else z3.BoolVal(False)
     res = None
@@ -362,6 +389,12 @@ def to_bytes(S, term, L, sub=None):
                         nib = z3.ZeroExt(4, z3.Extract(4 * k + 3, 4 * k, v))
                         bs.append(z3.If(z3.ULT(nib, 10), nib + 0x30, nib + 0x57))
                 pn, pw = nd, left(bs)
+            elif p[0] == 'pre':
+                n0, w0 = to_bytes(S, p[1], L, sub)
+                pos = z3.substitute(p[2], *sub) if sub else p[2]
+                pn = z3.If(z3.ULT(pos, z3.ZeroExt(56, n0)), z3.Extract(7, 0, pos), n0)
+                keep = ~z3.LShR(z3.BitVecVal((1 << W) - 1, W), z3.ZeroExt(W - 8, pn) * 8) if W > 8 else z3.BitVecVal(0xFF, 8)
+                pw = w0 & keep
             else:
                 pn, pw = to_bytes(S, p[1], L, sub)
             if conc is not None:
